@@ -491,7 +491,7 @@ pub fn run(ctx: &Ctx, rep: &mut Report, which: Which) {
     );
 
     // (d) every prefix and every single-byte substitution of well-formed messages
-    let n = ctx.cases(320, 6_000);
+    let n = ctx.cases(1_000, 12_000);
     run_prop(
         ctx,
         rep,
@@ -535,7 +535,7 @@ pub fn run(ctx: &Ctx, rep: &mut Report, which: Which) {
     );
 
     // (e) random strings: uniform, and option-shaped chunks
-    let n = ctx.cases(200_000, 5_000_000);
+    let n = ctx.cases(600_000, 10_000_000);
     run_prop(
         ctx,
         rep,
